@@ -167,10 +167,10 @@ CHECKS['C10'] = dict(
 # ---------------------------------------------------------------------------------------------- rules added in later rounds
 _ADDED = {
     'C01': ' Also decided: the user\'s filter-length key reaches find_extrema alone and unchanged through compute_features and Bycycle.fit (OPT-FORWARD); the peak and trough '
-           'search windows of find_extrema share their boundaries (WINDOW-TILING).',
+           'search windows of find_extrema share their boundaries (WINDOW-TILING); every reduction over a set of crossing positions in the midpoint search sits behind a fallback or an emptiness test, so a flank without a crossing still gets a midpoint instead of an exception (CROSSING-TOTAL).',
     'C02': ' Also decided: find_extrema / find_flank_zerox write through none of their arguments (ARGS-INTACT).',
     'C03': ' Also decided: find_zerox (closed over its helpers) writes through none of its arguments (ARGS-INTACT).',
-    'C04': ' Also decided: the pipeline leaves the band-amplitude filter at its documented three cycles (BAND-WIRING) and the table utilities never write through a returned table (TABLE-INTACT).',
+    'C04': ' Also decided: the pipeline leaves the band-amplitude filter at its documented three cycles (BAND-WIRING) and the table utilities never write through a returned table (TABLE-INTACT); rename_extrema_df called on its own performs the documented swap / negation / 1-x conversion with and without sample columns (RENAME-DEF).',
     'C09': ' Also decided: return_samples changes no argument of any feature / label computation (RS-LATE).',
     'C10': ' Unit signatures follow the positional normal form of neurodsp calls; rounding or quantising a V-valued term counts as an absolute level.',
     'C13': ' Also decided: the per-epoch option list is consumed on a deep copy (COPY-FIRST) and read without pop, because deepcopy keeps list positions that name one dict as one object (EPOCH-OWN-OPTIONS).',
